@@ -267,6 +267,9 @@ def explore(fn, base=(), opts=None, catch=(Exception,), max_paths=2000):
                 except catch as e:  # the code under test raised: a legitimate path end
                     if isinstance(e, (AssertionError,)) and getattr(e, '_vf_internal', False):
                         raise
+                    if isinstance(e, AttributeError) and "module 'snv." in str(e):
+                        # a contract addressed a private function of the module that is not there any more (renamed, inlined)
+                        raise Unsupported(f'the contract addresses a name the module no longer has: {e}') from e
                     if isinstance(e, (TypeError, AttributeError)) and _mentions_symbolic(e):
                         # CPython refused a symbolic stand-in (e.g. str.join, int(), indexing): an engine limit, not the code's exception
                         raise Unsupported(f'CPython operation not available on symbolic values: {type(e).__name__}: {e}') from e
